@@ -1,6 +1,10 @@
 import Yaql.Model.FloatRound
 import Mathlib.Tactic.Ring
 import Mathlib.Tactic.Linarith
+import Mathlib.Tactic.FieldSimp
+import Mathlib.Algebra.Order.Field.Basic
+import Mathlib.Algebra.Order.Field.Rat
+import Mathlib.Algebra.Order.AbsoluteValue.Basic
 /-!
 Characteristic properties of `Yaql.FloatRound.roundRat`, for all inputs.
 -/
@@ -877,5 +881,90 @@ theorem roundRat_mono (n1 n2 : Int) (d1 d2 : Nat) (h1 : 0 < d1) (h2 : 0 < d2) (h
   by_cases c1 : L1 < K <;> by_cases c2 : L2 < K <;>
     by_cases s1 : n1 < 0 <;> by_cases s2 : n2 < 0 <;> simp [c1, c2, s1, s2, Ext.le] <;>
     (have l1' := l1.not; have l2' := l2.not; have l1m := l1.mp; have l2m := l2.mp; omega)
+
+/-! ## the statements over ℚ -/
+
+/-- the rational a finite double with scaled value `z` denotes -/
+def valQ (z : Int) : ℚ := (z : ℚ) / (scale : ℚ)
+
+theorem scaleQ_pos : (0 : ℚ) < (scale : ℚ) := by exact_mod_cast scale_pos
+
+theorem diff_eq (num : Int) (den : Nat) (hd : 0 < den) (z : Int) :
+    (num : ℚ) / den - valQ z = (((scale : Int) * num - z * den : Int) : ℚ) / ((den : ℚ) * scale) := by
+  have h1 : (0 : ℚ) < den := by exact_mod_cast hd
+  have h2 := scaleQ_pos
+  unfold valQ
+  push_cast
+  field_simp
+
+theorem absdiff_eq (num : Int) (den : Nat) (hd : 0 < den) (z : Int) :
+    |(num : ℚ) / den - valQ z| = ((((scale : Int) * num - z * den).natAbs : ℕ) : ℚ) / ((den : ℚ) * scale) := by
+  have h1 : (0 : ℚ) < den := by exact_mod_cast hd
+  have h2 := scaleQ_pos
+  rw [diff_eq num den hd z, abs_div, abs_of_pos (mul_pos h1 h2), Nat.cast_natAbs, Int.cast_abs]
+
+/-- **nearest**: the value of the result is at least as near to `num / den` as the value of any finite double -/
+theorem roundRat_nearest (num : Int) (den : Nat) (w : UInt64) (h : roundRat num den = .ok w) :
+    ∃ z, decode w = .fin z ∧ ∀ w' z', decode w' = .fin z' →
+      |(num : ℚ) / den - valQ z| ≤ |(num : ℚ) / den - valQ z'| := by
+  obtain ⟨hd, _, _⟩ := roundRat_ok h
+  refine ⟨sval num den, roundRat_decode h, ?_⟩
+  intro w' z' hw'
+  have hz' := (decode_rep w' z' hw').repU
+  have hn := sval_nearest num den hd z' hz'
+  rw [absdiff_eq num den hd, absdiff_eq num den hd]
+  have h1 : (0 : ℚ) < den := by exact_mod_cast hd
+  have h2 := scaleQ_pos
+  apply div_le_div_of_nonneg_right _ (le_of_lt (mul_pos h1 h2))
+  exact_mod_cast hn
+
+/-- **exact**: if `num / den` is the value of the finite double `w` (not the bit pattern `-0.0`), the result is `w` -/
+theorem roundRat_exact (num : Int) (den : Nat) (hd : 0 < den) (w : UInt64) (z : Int)
+    (hw : decode w = .fin z) (hq : (num : ℚ) / den = valQ z) (hnz : w ≠ 0x8000000000000000) :
+    roundRat num den = .ok w := by
+  apply roundRat_exact_int num den hd w z hw _ hnz
+  have h1 : (0 : ℚ) < den := by exact_mod_cast hd
+  have h2 := scaleQ_pos
+  have h0 := sub_eq_zero.mpr hq
+  rw [diff_eq num den hd z, div_eq_zero_iff] at h0
+  rcases h0 with h0 | h0
+  · have : (scale : Int) * num - z * den = 0 := by exact_mod_cast h0
+    omega
+  · exact absurd h0 (ne_of_gt (mul_pos h1 h2))
+
+/-- ... and decoding the result of a representable input gives the input back -/
+theorem roundRat_exact_value (num : Int) (den : Nat) (w w' : UInt64) (z : Int)
+    (hw : decode w = .fin z) (hq : (num : ℚ) / den = valQ z) (h : roundRat num den = .ok w') :
+    decode w' = .fin z := by
+  obtain ⟨z0, hz0, hn⟩ := roundRat_nearest num den w' h
+  have h1 := hn w z hw
+  rw [hq, sub_self, abs_zero] at h1
+  have h2 : valQ z - valQ z0 = 0 := abs_eq_zero.mp (le_antisymm h1 (abs_nonneg _))
+  have h3 : valQ z = valQ z0 := sub_eq_zero.mp h2
+  unfold valQ at h3
+  have h4 : (z : ℚ) = z0 := by
+    have := scaleQ_pos
+    field_simp at h3
+    exact h3
+  have h5 : z = z0 := by exact_mod_cast h4
+  rw [h5]; exact hz0
+
+/-- **monotone** over ℚ -/
+theorem roundRat_mono_rat (n1 n2 : Int) (d1 d2 : Nat) (h1 : 0 < d1) (h2 : 0 < d2)
+    (h : (n1 : ℚ) / d1 ≤ (n2 : ℚ) / d2) : Ext.le (roundRat n1 d1).ext (roundRat n2 d2).ext = true := by
+  apply roundRat_mono n1 n2 d1 d2 h1 h2
+  have hd1 : (0 : ℚ) < d1 := by exact_mod_cast h1
+  have hd2 : (0 : ℚ) < d2 := by exact_mod_cast h2
+  rw [div_le_div_iff₀ hd1 hd2] at h
+  exact_mod_cast h
+
+/-- equal rationals round alike -/
+theorem roundRat_congr_rat (n1 n2 : Int) (d1 d2 : Nat) (h1 : 0 < d1) (h2 : 0 < d2)
+    (h : (n1 : ℚ) / d1 = (n2 : ℚ) / d2) : roundRat n1 d1 = roundRat n2 d2 := by
+  apply roundRat_congr n1 n2 d1 d2 h1 h2
+  have hd1 : (d1 : ℚ) ≠ 0 := by exact_mod_cast (Nat.ne_of_gt h1)
+  have hd2 : (d2 : ℚ) ≠ 0 := by exact_mod_cast (Nat.ne_of_gt h2)
+  rw [div_eq_div_iff hd1 hd2] at h
+  exact_mod_cast h
 
 end Yaql.Props.FloatRound
